@@ -60,12 +60,13 @@ type Cmd interface {
 // ---- the server-side command interpreter -----------------------------------------
 
 type impl struct {
-	sh     *Shared
-	objTag string
-	mux    *plugin.MuxBroker
-	grpcb  *plugin.GRPCBroker
-	kmu    sync.Mutex
-	kept   map[uint32]*grpc.ClientConn
+	sh            *Shared
+	objTag        string
+	mux           *plugin.MuxBroker
+	grpcb         *plugin.GRPCBroker
+	kmu           sync.Mutex
+	kept          map[uint32]*grpc.ClientConn
+	heldListeners []io.Closer
 }
 
 func (im *impl) do(op, arg string) (string, error) {
@@ -156,6 +157,20 @@ func (im *impl) do(op, arg string) (string, error) {
 		}
 		go ServeEcho(conn, id)
 		return "ok", nil
+	case "acceptonly":
+		// take a listener for id and keep it open until the process ends
+		id64, _ := strconv.ParseUint(arg, 10, 32)
+		if im.grpcb == nil {
+			return "", errors.New("acceptonly: gRPC only")
+		}
+		ln, err := im.grpcb.Accept(uint32(id64))
+		if err != nil {
+			return "", err
+		}
+		im.kmu.Lock()
+		im.heldListeners = append(im.heldListeners, ln)
+		im.kmu.Unlock()
+		return ln.Addr().String(), nil
 	case "acceptsync":
 		// like accept but returns only once the listener exists (gRPC) — the
 		// documented sequential establishment needs this
